@@ -112,6 +112,35 @@ def observe_records(obj, table):
 
 # ------------------------------------------------------------------ concretization
 
+# character / encoding stress (notes/SIZE_STRESS.md part 2).  "Whitespace-free" = no code point that
+# str.split() splits on (the 29 code points with str.isspace(): ASCII white space, U+001C..1F, U+0085,
+# NBSP U+00A0, U+1680, U+2000..200A, U+2028/9, U+202F, U+205F, U+3000): those stay out (NBSP inside a token
+# DOES split it: out of the domain); U+200B, U+FEFF, ZWJ, soft hyphen, bidi marks are not white space.
+UNI = ["cafe\u0301", "caf\u00e9", "A\u030a", "\u00c5", "\u212b", "\u2126", "\uf9d0", "\ufb01", "\uff21", "\u1100\u1161", "\uac00",
+       "\u00df", "\u0130", "\u0131", "\u017f", "\u03c3\u03c2", "\U00010400", "\ufeff", "\u200d", "\u200c", "\u00ad", "\u200e", "\u200f",
+       "\U0001f600", "\U0010ffff", "\u0301", "\u200b", "\u2060", "e\u0301\u0323", "\u1e69", "s\u0323\u0307", "\u4e2d\u6587"]
+UNI = [u for u in UNI if not any(ch.isspace() for ch in u)]
+
+
+def uni_token(rng, n):
+    """n code points: ASCII mixed with text that is not NFC/NFKC-stable, case-mapping hazards, U+FEFF /
+    zero-width characters (also at the start), non-BMP characters"""
+    out = ""
+    while len(out) < n:
+        out += rng.choice(UNI) if rng.random() < 0.6 else rng.choice(ALNUM)
+    return out[:n]
+
+
+def nfc_twin(t):
+    """the other normalization form of t (a DIFFERENT token), or None if t is stable"""
+    import unicodedata
+    for form in ("NFC", "NFD", "NFKC"):
+        u = unicodedata.normalize(form, t)
+        if u != t and len(u) >= 1 and not any(ch.isspace() for ch in u):
+            return u
+    return None
+
+
 SPECIAL_SIZES = [0, 9, 10, 99, 100, 2**15, 2**16, 2**31 - 1, 2**31, 2**32 - 1, 2**32, 2**63 - 1, 2**63, 10**18, 2**64, 10**24]
 BOUNDARY_LENS = [1, 2, 7, 8, 9, 15, 16, 17, 31, 32, 33, 63, 64, 65, 71, 72, 73, 79, 80, 81, 127, 128, 129, 255, 256, 257,
                  1023, 1024, 1025, 4095, 4096, 4097]
@@ -141,6 +170,8 @@ def make_token(rng, sub, n, canonical, k):
         return "".join(rng.choice("0123456789abcdef") for _ in range(n))
     if canonical:
         return ("%s%d" % (sub[0], k) + "x" * n)[:n]
+    if rng.random() < 0.25:
+        return uni_token(rng, n)
     return rng.choice(ALNUM) + "".join(rng.choices(FREE, k=n - 1))
 
 
@@ -191,6 +222,11 @@ def concretize(rng, case, canonical, stress=False):
                         n = rng.choice(BOUNDARY_LENS)
                     for attempt in range(50):
                         t = make_token(rng, names[i], n, canonical and attempt == 0, tid + attempt)
+                        if not canonical and attempt == 0 and names[i] != "size" and names[i].lower() not in HASHES and rng.random() < 0.3:
+                            # the other normalization form of a token already in this field: a different token
+                            tw = [x for x in (nfc_twin(y) for y in sorted(seen)) if x and x not in seen]
+                            if tw:
+                                t = rng.choice(tw)
                         if t not in seen:
                             break
                     pool[str(tid)] = t
@@ -228,6 +264,8 @@ def as_input(text, kind):
         return io.StringIO(text)
     if kind == 3:
         return text.encode("utf-8")
+    if kind == 4:
+        return io.BytesIO(text.encode("utf-8"))
     return text
 
 
@@ -348,6 +386,21 @@ def run_case(ctx, case, conc, variant, tables):
     return check_records(case, conc, observe_records(obj3, table), "B parse(dump(parse(text)))")
 
 
+ILLEGAL_BEHAVIORS = ["", "DAK", None, 7, "apt-ftparchive ", "Dak"]
+POISON_TOKENS = ["a\nb", "a b", "\n", "x\ty", "a\u00a0b"]
+
+
+def poison(obj, fname, subs, rng):
+    """an operation OUTSIDE the domain (a record with a newline / white-space token) on a field that the
+    next step re-assigns or deletes: whatever it does (today: dump() raises ValueError for a newline, a
+    blank splits the token) must be gone once the field is replaced.  Nothing here is a verdict."""
+    try:
+        obj[fname] = [dict(zip(subs, [rng.choice(POISON_TOKENS)] + ["1"] * (len(subs) - 1)))]
+        obj.dump()
+    except Exception:
+        pass
+
+
 OTHER_RECORDS = [("0cc175b9c0f1b6a831c399e269772661", "5"), ("92eb5ffee6ae2fec3ad71c777531578f", "12345")]
 
 
@@ -430,6 +483,22 @@ def run_history(ctx, case, conc, variant, tables):
                 return m
             done.append("dump")
             continue
+        if op == "setbehfails":
+            bad = ILLEGAL_BEHAVIORS[variant.get("illegal", 0) % len(ILLEGAL_BEHAVIORS)]
+            try:
+                obj.size_field_behavior = bad
+            except Exception:
+                pass                     # rejected, as the model says: the option must be what it was
+            else:
+                return None              # accepted: not the step the model describes -- unspecified, stop here
+            try:
+                now = obj.size_field_behavior
+            except Exception as e:
+                return "%s: reading size_field_behavior raised %s" % (what, type(e).__name__)
+            if now != beh:
+                return "%s: after the rejected assignment of %r size_field_behavior is %r, model: unchanged (%r)" % (what, bad, now, beh)
+            done.append("rejected size_field_behavior:=%r" % (bad,))
+            continue
         try:
             if op == "setbeh":
                 obj.size_field_behavior = beh = st[1]
@@ -437,6 +506,9 @@ def run_history(ctx, case, conc, variant, tables):
                 continue
             f = st[1]
             fname, subs = table[f - 1]["f"], table[f - 1]["subs"]
+            if op in ("assign", "delete") and variant.get("poison"):
+                import random
+                poison(obj, fname, subs, random.Random(variant["poison"]))
             if op == "append":
                 obj[fname].append(dict(zip(subs, [tok(f, p) for p in st[2]])))
             elif op == "setsize":
@@ -457,8 +529,8 @@ def run_history(ctx, case, conc, variant, tables):
 
 def make_variant(rng, c):
     if c == 0:
-        return {}
-    return {"spell": rng.randrange(3), "input": rng.randrange(4), "reverse": rng.random() < 0.5,
+        return {"illegal": rng.randrange(6)}
+    return {"illegal": rng.randrange(6), "poison": rng.randrange(1, 1000) if rng.random() < 0.5 else 0, "spell": rng.randrange(3), "input": rng.randrange(5), "reverse": rng.random() < 0.5,
             "deb822dict": rng.random() < 0.5, "beh_late": rng.random() < 0.5,
             "extra_first": rng.randrange(5) if rng.random() < 0.5 else 0,
             "extra_last": rng.randrange(5) if rng.random() < 0.3 else 0}
@@ -527,7 +599,7 @@ def gen_recipe(rng, tables, big=0):
     order = list(range(len(fields)))
     rng.shuffle(order)
     return {"cls": cname, "beh": beh, "dir": direction, "fields": fields, "order": order,
-            "spell": rng.randrange(3), "input": rng.randrange(4), "again": rng.random() < 0.3,
+            "spell": rng.randrange(3), "input": rng.randrange(5), "again": rng.random() < 0.3,
             "extra": rng.randrange(5) if rng.random() < 0.4 else 0,
             "muts": gen_mutations(rng, table, fields, cname)}
 
@@ -541,8 +613,12 @@ def gen_mutations(rng, table, fields, cname):
     for _ in range(rng.choice([0, 0, 1, 1, 2, 3])):
         multi = [f for f in cur if cur[f]["form"] == "multi"]
         ops = ["assign"] + (["append", "append", "setsize", "setsize", "setsize"] if multi else []) + (["delete"] if cur else [])
-        ops += ["other", "other"] + (["setbeh", "setbeh"] if cname == "Release" else [])
+        ops += ["other", "other"] + (["setbeh", "setbeh", "setbehfails", "setbehfails"] if cname == "Release" else [])
         op = rng.choice(ops)
+        if op == "setbehfails":
+            muts.append({"op": "setbehfails", "i": rng.randrange(len(ILLEGAL_BEHAVIORS))})
+            muts[-1]["single_left"] = any(v["form"] == "single" for v in cur.values())
+            continue
         if op == "setbeh":
             muts.append({"op": "setbeh", "v": rng.choice(["apt-ftparchive", "dak"])})
             muts[-1]["single_left"] = any(v["form"] == "single" for v in cur.values())
@@ -581,10 +657,10 @@ def gen_mutations(rng, table, fields, cname):
             if rng.random() < 0.3:
                 recs.append(list(recs[0]))
             cur[f] = {"form": "multi", "recs": recs}
-            muts.append({"op": "assign", "f": f, "recs": recs})
+            muts.append({"op": "assign", "f": f, "recs": recs, "poison": rng.randrange(1, 1000) if rng.random() < 0.3 else 0})
         else:
             del cur[f]
-            muts.append({"op": "delete", "f": f})
+            muts.append({"op": "delete", "f": f, "poison": rng.randrange(1, 1000) if rng.random() < 0.3 else 0})
         muts[-1]["single_left"] = any(v["form"] == "single" for v in cur.values())
     return muts
 
@@ -711,6 +787,14 @@ def execute(recipe, tables):
                 events.append({"op": "error", "what": m})
                 return tr
             events.append({"op": "other", "c": mu["c"], "v": mu["v"]})
+        elif mu["op"] == "setbehfails":
+            try:
+                obj.size_field_behavior = ILLEGAL_BEHAVIORS[mu["i"]]
+            except Exception:
+                events.append({"op": "setbehfails"})
+            else:
+                tr["accepted_illegal_behavior"] = repr(ILLEGAL_BEHAVIORS[mu["i"]])
+                return tr            # accepted: unspecified, nothing more is logged
         elif mu["op"] == "setbeh":
             try:
                 obj.size_field_behavior = cur_beh = mu["v"]
@@ -718,12 +802,15 @@ def execute(recipe, tables):
                 events.append({"op": "error", "what": "setting size_field_behavior raised %s: %s" % (type(e).__name__, e)})
                 return tr
             events.append({"op": "setbeh", "v": mu["v"]})
-        if mu["op"] in ("other", "setbeh"):
+        if mu["op"] in ("other", "setbeh", "setbehfails"):
             if dump_parse(obj, cname == "Release" and cur_beh == "dak" and mu["single_left"]) is None:
                 return tr
             continue
         f = mu["f"]
         fname, subs = spell(table[f - 1]["f"]), table[f - 1]["subs"]
+        if mu["op"] in ("assign", "delete") and mu.get("poison"):
+            import random
+            poison(obj, fname, subs, random.Random(mu["poison"]))      # out of the domain, replaced by the next step: not logged
         try:
             if mu["op"] == "append":
                 obj[fname].append(dict(zip(subs, mu["rec"])))
@@ -889,7 +976,8 @@ def run(ctx):
     quick = ctx.tier == "quick"
     rng = ctx.rng
     ctx.assumptions += [
-        "D3: record lists are non-empty, tokens contain no white space, a record has one token per documented sub-field",
+        "D3: record lists are non-empty, a record has one token per documented sub-field, tokens contain no white space = no code point str.split() splits on (the 29 code points with str.isspace(), incl. NBSP, U+2003, U+3000; U+200B and U+FEFF are allowed); tokens are otherwise arbitrary Unicode (non-NFC text and its precomposed twin as different tokens, non-BMP, zero-width characters), compared by code point",
+        "rejected operations: an illegal size_field_behavior whose exception is caught must leave the option unchanged (if it is accepted instead: unspecified); a record with a newline / white-space token is outside the domain -- executed before a re-assignment or deletion of the field, its outcome is ignored and must leave no trace",
         "size dimension (notes/SIZE_STRESS.md): the model is abstract in the number of records and in the length of digests/names; replayed cases are also run with their records replicated to 9..257 (a few: 1000) records, identical and fresh copies, and with tokens of boundary lengths up to 4097; recorded traces contain up to 1000 records, sizes of 1..25 digits (2**31, 2**63, 10**18, leading zeros), names up to 1025 characters, identical records",
         "model: <= 2 records per field in the closed configurations (sizes 1..18 characters), histories of <= 2 mutations (append / size in place / assign / delete) with a dump after each; up to 6 records, arbitrary lengths, up to 3 mutations in the recorded traces",
         "unspecified (executed, any outcome accepted): Release/dak with a single-line field; width of a Release/apt-ftparchive field holding a size of more than 16 characters",
@@ -908,7 +996,8 @@ def run(ctx):
     }
     negs = {"neg_cache": ("CacheWidths", ("WidthRule", "RightAligned")),
             "neg_shared": ("SharedEqualRecords", ("EditIsLocal",)),
-            "neg_classopt": ("ClassLevelOption", ("WidthTable", "WidthRule"))}
+            "neg_classopt": ("ClassLevelOption", ("WidthTable", "WidthRule")),
+            "neg_storefirst": ("StoreBeforeValidate", ("DumpTotal", "OtherIsOther"))}
     # these spec-level controls do not depend on the tree: one of them per quick run (by seed), all in thorough
     todo = sorted(negs) if not quick else [sorted(negs)[ctx.seed % len(negs)]]
     for name in todo:
@@ -1061,6 +1150,8 @@ def describe_event(t, ev):
         return "%s field %d" % (ev["op"], ev["f"])
     if ev["op"] in ("setbeh", "other"):
         return "%s %s" % (ev["op"], ev.get("c", "") + ":=" + ev["v"])
+    if ev["op"] == "setbehfails":
+        return "rejected assignment to size_field_behavior"
     return ev["op"]
 
 
